@@ -277,8 +277,31 @@ def gen_op(rng, state):
             if sub and rng.random() < 0.5:
                 new = tuple(rng.choice(sub)) + (rng.choice(KEYS),)       # into another nested tensordict
         return ["rename", h, old, new[:4]]
-    if r < 0.97:
+    if r < 0.955:
         return ["create", h, gen_key(rng, node, 0.3)]
+    if r < 0.965:
+        return ["pop", h, gen_key(rng, node, 0.8)]
+    if r < 0.972:
+        return ["popitem", h]
+    if r < 0.985:
+        key = gen_key(rng, node, 0.4)
+        dest = get_at(node, key[:-1])
+        if dest is None or dest[0] != "n":
+            dest = node
+        return ["setdefault", h, key, gen_value(rng, dest)]
+    if r < 0.995:
+        n = len(node[1])
+        cur = node[3] if node[3] is not None else [None] * n
+        q = rng.random()
+        if q < 0.6:          # compatible refinement
+            pool = [x for x in NAMEPOOL if x not in cur]
+            rng.shuffle(pool)
+            names = [c if c is not None else (pool.pop() if pool and rng.random() < 0.6 else None) for c in cur]
+        elif q < 0.8:
+            names = [rng.choice(NAMEPOOL + [None]) for _ in range(n)]
+        else:
+            names = [rng.choice(NAMEPOOL + [None]) for _ in range(rng.randint(0, 4))]
+        return ["refine", h, names]
     return ["clear", h]
 
 
@@ -293,6 +316,16 @@ def cls_of(e):
 
 
 def prepare_op(op):
+    if op[0] == "setdefault":
+        try:
+            v = build(op[3])
+        except Exception:  # noqa
+            return None
+        return [op[0], op[1], op[2], snap(v), v]
+    return _prepare_set(op)
+
+
+def _prepare_set(op):
     """build the value of a `set` with the real constructor (which itself normalises nested metadata: adopted or
     refined names, device moves) and put its *actual* metadata into the op, so that model and implementation
     are given the same value. Returns None when the constructor rejects the generated value."""
@@ -326,6 +359,14 @@ def apply_impl(td, op, tlimit=10.0):
                 node.create_nested(tuple(op[2]))
             elif kind == "clear":
                 node.clear()
+            elif kind == "pop":
+                node.pop(tuple(op[2]))
+            elif kind == "popitem":
+                node.popitem()
+            elif kind == "setdefault":
+                node.setdefault(tuple(op[2]), op[4])
+            elif kind == "refine":
+                node.refine_names(*op[2])
             else:
                 raise AssertionError(kind)
         return ["ok"]
@@ -377,6 +418,14 @@ def sx_op(op):
         return f"(create {sx_path(op[1])} {sx_path(op[2])})"
     if k == "clear":
         return f"(clear {sx_path(op[1])})"
+    if k == "pop":
+        return f"(pop {sx_path(op[1])} {sx_path(op[2])})"
+    if k == "popitem":
+        return f"(popitem {sx_path(op[1])})"
+    if k == "setdefault":
+        return f"(setdefault {sx_path(op[1])} {sx_path(op[2])} {sx_tree(op[3])})"
+    if k == "refine":
+        return f"(refine {sx_path(op[1])} {sx_names(op[2])})"
     raise AssertionError(k)
 
 
